@@ -938,8 +938,47 @@ def gen_access(repo):
     G.define('gen_mmbase_masked_inline_accesses', '(W M K N i j k n : nat)', 'list (nat * nat)',
              acc(MK, r'void\s+_matmul_base_masked\s*\(const[^)]*\)\s*\{', 0, ['a', 'b', 'c'], envd, consts=True),
              MK + ': _matmul_base_masked: a / b / c accesses of the inline code')
+    # ---- tensor/AbstractTensorFunctions.h: reductions and predicates (the overloads that do not evaluate their argument first)
+    AF = 'tensor/AbstractTensorFunctions.h'
+    def red(name):
+        def fn():
+            txt = G.src(AF)
+            hdr_re = r'enable_if_t_<\s*!requires_evaluation_v<Derived>\s*,\s*bool>\s*=\s*false>\s*FASTOR_INLINE\s+typename\s+Derived::scalar_type\s+%s\s*\(const\s+AbstractTensor<Derived,DIMS>\s*&\s*_src\)\s*\{' % name
+            body, _ = find_scope(txt, hdr_re, 0)
+            b = ' '.join(body.split())
+            m = re.search(r'T _scal\s*=\s*(.+?); V _vec\(_scal\);', b)
+            if not m: raise XErr('seed declaration')
+            seed = {'0': 0, '1': 1, 'std::numeric_limits<T>::max()': 2, 'std::numeric_limits<T>::lowest()': 3}.get(m.group(1).strip())
+            if seed is None: raise XErr('seed: ' + m.group(1))
+            m = re.search(r'for \(i = 0; i < ROUND_DOWN\(src\.size\(\),V::Size\); i\+=V::Size\) \{ (.+?); \} for \(; i < src\.size\(\); \+\+i\) \{ (.+?); \} return (.+?);$', b)
+            if not m: raise XErr('loop structure (vector body over ROUND_DOWN(size,V::Size), scalar tail, return)')
+            ev, es = r'src\.template eval<T>\(i\)', r'src\.template eval_s<T>\(i\)'
+            def cls(t, table):
+                for k, (pat, code) in enumerate(table):
+                    if re.fullmatch(pat, t.strip()): return code
+                raise XErr('statement not recognised: ' + t)
+            vop = cls(m.group(1), [(r'_vec \+= ' + ev, 0), (r'_vec \*= ' + ev, 1), (r'_vec = min\(' + ev + r',_vec\)', 2), (r'_vec = max\(' + ev + r',_vec\)', 3)])
+            sop = cls(m.group(2), [(r'_scal \+= ' + es, 0), (r'_scal \*= ' + es, 1), (r'_scal = std::min\(' + es + r',_scal\)', 2), (r'_scal = std::max\(' + es + r',_scal\)', 3)])
+            fin = cls(m.group(3), [(r'_vec\.sum\(\) \+ _scal', 0), (r'_vec\.product\(\) \* _scal', 1), (r'std::min\(_vec\.minimum\(\), _scal\)', 2), (r'std::max\(_vec\.maximum\(\), _scal\)', 3)])
+            return '[%d; %d; %d; %d]' % (seed, vop, sop, fin)
+        return fn
+    for nm in ('sum', 'product', 'min', 'max'):
+        G.define('gen_reduce_%s' % nm, '', 'list nat', red(nm), AF + ': %s(expr), non-evaluating overload: [seed (0 zero, 1 one, 2 numeric max, 3 numeric lowest); vector update; scalar update; horizontal fold and final combination] with 0 +, 1 *, 2 min, 3 max' % nm)
+    def pred(name):
+        def fn():
+            txt = G.src(AF)
+            hdr_re = r'is_boolean_expression_v<Derived>\s*&&\s*!requires_evaluation_v<Derived>\s*,\s*bool>\s*=\s*false>\s*FASTOR_INLINE\s+bool\s+%s\s*\(const\s+AbstractTensor<Derived,DIMS>\s*&\s*_src\)\s*\{' % name
+            body, _ = find_scope(txt, hdr_re, 0)
+            b = ' '.join(body.split())
+            m = re.fullmatch(r'const Derived &src = _src\.self\(\); bool val = (true|false); for \(FASTOR_INDEX i = 0; i < src\.size\(\); \+\+i\) \{ if \(src\.template eval_s<bool>\(i\) == (true|false)\) \{ val = (true|false); break; \} \} return val;', b)
+            if not m: raise XErr('early-exit loop structure')
+            return '[%s; %s; %s]' % m.groups()
+        return fn
+    for nm in ('all_of', 'any_of', 'none_of'):
+        G.define('gen_pred_%s' % nm, '', 'list bool', pred(nm), AF + ': %s(expr): [initial value; element value that triggers the exit; value returned on exit]' % nm)
     hdr = ('(** GENERATED by lib/cxx2v.py from the C++ source of /repo on every run -- do not edit.\n'
-           '    Index expression of every operand / result access of the transpose and matmul kernels. *)\n'
+           '    Index expression of every operand / result access of the transpose and matmul kernels;\n'
+           '    structure of the reductions and predicates of AbstractTensorFunctions.h. *)\n'
            'From Coq Require Import Arith List Bool.\nImport ListNotations.\n\n')
     return G, hdr + '\n'.join(G.defs)
 
